@@ -1139,11 +1139,18 @@ func (x *SX) switchStmt(v *ast.SwitchStmt, st *sxState) []outcome {
 			res = append(res, oc)
 			continue
 		}
-		var tag Term
-		if v.Tag != nil {
-			tag = x.eval(v.Tag, oc.st)
+		if v.Tag == nil {
+			res = append(res, x.switchClauses(v.Body.List, 0, nil, v, oc.st)...)
+			continue
 		}
-		res = append(res, x.switchClauses(v.Body.List, 0, tag, v, oc.st)...)
+		// the tag may be an inlined helper with several outcomes (switch kindOf(item) { … }): one switch per outcome
+		for _, ev := range x.evalFork(v.Tag, oc.st) {
+			if ev.kind != "" {
+				res = append(res, ev.outcome)
+				continue
+			}
+			res = append(res, x.switchClauses(v.Body.List, 0, ev.val, v, ev.st)...)
+		}
 	}
 	// break inside a switch leaves the switch only
 	for i := range res {
